@@ -773,15 +773,11 @@ func (w *Worker) selectCells(cells []Value, idx *Term) Value {
 		}
 		ts[i] = t
 	}
-	bits := 0
-	for (1 << bits) < len(ts) {
-		bits++
-	}
-	return w.mux(ts, idx, bits, 0)
+	return w.T.Select(ts, idx)
 }
 
 // mux selects ts[base + idx's low `bits` bits]; indices beyond len(ts) are don't-care (in-range by pc).
-func (w *Worker) mux(ts []*Term, idx *Term, bits int, base int) *Term {
+func (tb *Table) mux(ts []*Term, idx *Term, bits int, base int) *Term {
 	if base >= len(ts) {
 		return ts[len(ts)-1]
 	}
@@ -803,10 +799,10 @@ func (w *Worker) mux(ts []*Term, idx *Term, bits int, base int) *Term {
 	if uniform {
 		return ts[base]
 	}
-	b := w.T.Eq(w.T.Extract(idx, bits-1, bits-1), w.T.Const(1, 1))
-	hi := w.mux(ts, idx, bits-1, base+(1<<(bits-1)))
-	lo := w.mux(ts, idx, bits-1, base)
-	return w.T.Ite(b, hi, lo)
+	b := tb.Eq(tb.Extract(idx, bits-1, bits-1), tb.Const(1, 1))
+	hi := tb.mux(ts, idx, bits-1, base+(1<<(bits-1)))
+	lo := tb.mux(ts, idx, bits-1, base)
+	return tb.Ite(b, hi, lo)
 }
 
 var callDenyPkgs = map[string]bool{
